@@ -23,6 +23,10 @@ func main() {
 		dump(os.Args[2:])
 		return
 	}
+	if len(os.Args) >= 3 && os.Args[1] == "clique" {
+		cliqueProbe(os.Args[2:])
+		return
+	}
 	if len(os.Args) >= 3 && os.Args[1] == "replay" {
 		os.Exit(replay(os.Args[2]))
 	}
